@@ -239,6 +239,31 @@ def _run_dumpstruct(case, ctx, m):
         want_s = lib(m.dumpstruct, obj, None, off, color, "string")
         if isinstance(ret, Err) or ret is not None or isinstance(want_s, Err) or addr.sub("", buf.getvalue()) != addr.sub("", want_s + "\n"):
             raise Violation("dumpstruct-print-differs", f"color={color}: dumpstruct(obj, offset={off}) printed {buf.getvalue()!r} (returned {ret!r}); the string form is {want_s!r}: {common.describe(case)}")
+    # a parsed object whose integer members were assigned afterwards is listed with its CURRENT values, next to the hex dump
+    # of its current bytes
+    root_t = ref["sem"].res(common.ROOT)
+    if root_t["kind"] == "struct":
+        changed = {}
+        for i_, f_ in enumerate(root_t["fields"]):
+            ft_ = ref["sem"].res(f_["t"])
+            if f_.get("name") and f_["name"] != "_" and (f_.get("bits") and ft_["k"] == "s" and ft_["n"] != "char" or (not f_.get("bits") and ft_["k"] == "s" and refsem.SCALARS[ft_["n"]][0] == "int")):
+                nv = ref["want"][fkey(f_, i_)] ^ 1
+                r_ = lib(setattr, obj, T.__fields__[i_]._name, nv)
+                if not isinstance(r_, Err):
+                    changed[T.__fields__[i_]._name] = nv
+        dumped2 = lib(obj.dumps) if changed else None
+        if changed and not isinstance(dumped2, Err):
+            for color in (False, True):
+                out = lib(m.dumpstruct, obj, None, off, color, "string")
+                if isinstance(out, Err):
+                    raise Violation("dumpstruct-raised", f"after assigning {changed}: {out}: {common.describe(case)}", out.where, {"exc": out.type, "color": color})
+                stripped = ANSI.sub("", out)
+                if m.hexdump(dumped2, offset=off, output="string") not in stripped:
+                    raise Violation("dumpstruct-hexdump-missing", f"after assigning {changed} (color={color}): output does not contain the hex dump of the object's current bytes {dumped2.hex()}: {common.describe(case)}\n{stripped}")
+                for nm, nv in changed.items():
+                    if f"- {nm}: {hex(nv)}" not in stripped.split("\n"):
+                        raise Violation("dumpstruct-value-wrong", f"after assigning {nm} = {hex(nv)} (color={color}) the listing does not show the line '- {nm}: {hex(nv)}'; listed lines: {[l for l in stripped.split(chr(10)) if l.startswith('- ')]}: {common.describe(case)}")
+            ctx.count("dumpstruct:listed-after-assignment")
     feats = common.model_features(ref["sem"], common.ROOT)
     for f in feats & {"bit-field", "nested-struct", "nested-union", "array", "enum", "flag", "pointer", "dynamic", "anonymous-member"}:
         ctx.count("dumpstruct:has:" + f)
